@@ -8,7 +8,7 @@
 // output: one "R ..." line per round (white-box observations made inside the cancel handler / after cancel_and_wait and
 // the final state), then the recorder dump: E lines, obj = 8*round + field (0 dq_atomic_flags, 1 ds_handler[3],
 // 2 ds_pending_data, 3 du_state, 4 dq_state); user events carry obj = 8*round.  Last line before the dump: MGR <lock value of
-// the manager thread>.
+// the manager thread>; last line of all: "DONE <rounds>" (its absence means a truncated output).
 #include "internal.h"
 #include <signal.h>
 #include <errno.h>
@@ -19,7 +19,7 @@
 #include "dv_record.h"
 
 enum { T_TIMER, T_DATA, T_READ, T_WRITE, T_SIGNAL, T_COUNT };
-enum { S_PRE, S_POST, S_HANDLER, S_TQITEM, S_THREAD, S_TWICE, S_CAW, S_CAW_PRE, S_CAW2, S_HANGUP, S_SUSPENDED, S_REGH, S_COUNT };
+enum { S_PRE, S_POST, S_HANDLER, S_TQITEM, S_THREAD, S_TWICE, S_CAW, S_CAW_PRE, S_CAW2, S_HANGUP, S_SUSPENDED, S_REGH, S_LATE, S_COUNT };
 // user event codes (a): API calls
 enum { A_CANCEL = 1, A_CAW = 2, A_ACTIVATE = 3, A_RELEASE = 4, A_RESUME = 5 };
 // cancel contexts (b)
@@ -36,7 +36,8 @@ typedef struct round_s {
 	dispatch_source_t ds; dispatch_queue_t tq;
 	int fd_r, fd_w;                 // pipe (read / write types)
 	volatile int stop, fired, ch_runs, cancels_started;
-	sem_t done, fired_sem, reuse_sem;
+	sem_t done, fired_sem, reuse_sem, late_go;
+	volatile int late_held;
 	// observations in the cancel handler (or after cancel_and_wait returned)
 	int ob_flags_ok, ob_du_state0, ob_monitored, ob_ontq, reuse_ok, timeouts;
 	uint32_t ob_flags; uint64_t rng;
@@ -47,9 +48,25 @@ typedef struct round_s {
 
 static uint64_t rr(round_t *r) { uint64_t x = r->rng; x ^= x << 13; x ^= x >> 7; x ^= x << 17; return r->rng = x; }
 static void set_nonblock(int fd) { fcntl(fd, F_SETFL, fcntl(fd, F_GETFL) | O_NONBLOCK); }
-static int sem_wait_s(sem_t *s, int secs) {
+static int sem_wait_s(sem_t *s, int secs) {    // plain bounded wait: only where the outcome decides no verdict
 	struct timespec ts; clock_gettime(CLOCK_REALTIME, &ts); ts.tv_sec += secs;
 	int rc; while ((rc = sem_timedwait(s, &ts)) != 0 && errno == EINTR) {} return rc;
+}
+// watchdog for the waits that decide a verdict (cancel handler ran, reused descriptor fired): progress-based.  It gives up
+// only when nothing this harness can see (a callout starting or ending, an API call returning) has happened for g_wait_s
+// seconds in a row (C16_WAIT_S, default 20); elapsed time alone never ends it (safety net: 60 such periods).
+static volatile unsigned long g_progress; static int g_wait_s = 20;
+#define PROGRESS() ((void)__sync_fetch_and_add(&g_progress, 1))
+static int sem_wait_progress(sem_t *s) {
+	unsigned long last = g_progress; int idle = 0;
+	for (long total = 0; total < 60L * g_wait_s; total++) {
+		struct timespec ts; clock_gettime(CLOCK_REALTIME, &ts); ts.tv_sec += 1;
+		int rc; while ((rc = sem_timedwait(s, &ts)) != 0 && errno == EINTR) {}
+		if (rc == 0) return 0;
+		unsigned long now = g_progress;
+		if (now != last) { last = now; idle = 0; } else if (++idle >= g_wait_s) return -1;
+	}
+	return -1;
 }
 static void find_epfd(void) {
 	if (epfd >= 0) return;
@@ -86,9 +103,10 @@ static void observe(round_t *r) {
 
 static void ev2_handler(void *ctx) {
 	round_t *r = (round_t *)ctx; char b[8];
+	PROGRESS();
 	if (read(r->nfd_r, b, sizeof b) > 0) { dv_user(DVU_MARK, 8 * r->id, M_REUSE_FIRED, 0); sem_post(&r->reuse_sem); }
 }
-static void ch2_handler(void *ctx) { round_t *r = (round_t *)ctx; close(r->nfd_r); close(r->nfd_w); sem_post(&r->reuse_sem); }
+static void ch2_handler(void *ctx) { round_t *r = (round_t *)ctx; PROGRESS(); close(r->nfd_r); close(r->nfd_w); sem_post(&r->reuse_sem); }
 
 // the API contract allows closing the descriptor once cancellation is complete; the descriptor number is then reused
 static void close_and_reuse(round_t *r) {
@@ -109,18 +127,21 @@ static void do_cancel(round_t *r, int cx) {
 	dv_user(DVU_CALL, 8 * r->id, A_CANCEL, (unsigned long long)cx);
 	dispatch_source_cancel(r->ds);
 	dv_user(DVU_RET, 8 * r->id, A_CANCEL, (unsigned long long)cx);
+	PROGRESS();
 }
 static void do_caw(round_t *r) {
 	__sync_fetch_and_add(&r->cancels_started, 1);
 	dv_user(DVU_CALL, 8 * r->id, A_CAW, 0);
 	dispatch_source_cancel_and_wait(r->ds);
 	dv_user(DVU_RET, 8 * r->id, A_CAW, 0);
+	PROGRESS();
 }
 
 static void ev_handler(void *ctx) {
 	round_t *r = (round_t *)ctx;
 	int ontq = dispatch_get_specific(&qkey) == (void *)r;
 	dv_user(DVU_CALLOUT_BEGIN, 8 * r->id, 0, (unsigned long long)ontq);
+	PROGRESS();
 	int n = __sync_add_and_fetch(&r->fired, 1);
 	char b[64];
 	if (r->type == T_READ) { (void)!read(r->fd_r, b, 1 + (size_t)(rr(r) % 8)); }
@@ -133,11 +154,13 @@ static void ev_handler(void *ctx) {
 	uint64_t x = rr(r);
 	if (x % 4 == 0) usleep((useconds_t)((x >> 8) % 150)); else if (x % 4 == 1) sched_yield();
 	dv_user(DVU_CALLOUT_END, 8 * r->id, 0, 0);
+	PROGRESS();
 }
 static void ch_handler(void *ctx) {
 	round_t *r = (round_t *)ctx;
 	int ontq = dispatch_get_specific(&qkey) == (void *)r;
 	dv_user(DVU_CALLOUT_BEGIN, 8 * r->id, 1, (unsigned long long)ontq);
+	PROGRESS();
 	__sync_add_and_fetch(&r->ch_runs, 1);
 	r->ob_ontq = ontq;
 	observe(r);
@@ -149,7 +172,7 @@ static void tq_item(void *ctx) { do_cancel((round_t *)ctx, CX_TQITEM); }
 // registration handler (runs on the target queue once the source is installed): lets events accumulate, then cancels
 static void reg_handler(void *ctx) { round_t *r = (round_t *)ctx;
 	dv_user(DVU_CALLOUT_BEGIN, 8 * r->id, 2, (unsigned long long)(dispatch_get_specific(&qkey) == (void *)r));
-	usleep((useconds_t)(200 + rr(r) % 800)); do_cancel(r, CX_TQITEM);
+	PROGRESS(); usleep((useconds_t)(200 + rr(r) % 800)); do_cancel(r, CX_TQITEM);
 	dv_user(DVU_CALLOUT_END, 8 * r->id, 2, 0); }
 static void noop(void *ctx) { (void)ctx; }
 
@@ -168,10 +191,30 @@ static void *feeder(void *a) {
 	return NULL;
 }
 
+// S_LATE: a cancel from another thread that lands between the owner's read of dq_atomic_flags (source.c:803) and the start
+// of the event handler (:809).  The hook holds the thread that owns the source's drain lock at its read of a non-zero
+// ds_pending_data (:804, right after the flags read), lets the canceller go and waits until CANCELED is in the word (bounded:
+// no verdict depends on the hold succeeding).  The handler invocation that follows started while CANCELED was set.
+static round_t *volatile g_late;
+static void c16_cb(const volatile void *addr, unsigned size, int kind, int order, unsigned long long a, unsigned long long b,
+		int ok, const char *file, int line) {
+	dv_cb(addr, size, kind, order, a, b, ok, file, line);
+	round_t *r = g_late;
+	if (!r || kind != DV_LOAD || a == 0 || r->late_held || addr != (const volatile void *)&r->ds->ds_refs->ds_pending_data) return;
+	uint32_t me = (uint32_t)syscall(SYS_gettid) & DLOCK_OWNER_MASK;
+	if (((uint32_t)*(volatile uint64_t *)&r->ds->dq_state & DLOCK_OWNER_MASK) != me) return;
+	if (*(volatile uint32_t *)&r->ds->dq_atomic_flags & DSF_CANCELED) return;
+	int saved_errno = errno;
+	r->late_held = 1; sem_post(&r->late_go);
+	for (int i = 0; i < 4000 && !(*(volatile uint32_t *)&r->ds->dq_atomic_flags & DSF_CANCELED); i++) usleep(50);
+	errno = saved_errno;
+}
+
 typedef struct { round_t *r; int what, delay_us, wait_fired; } canc_t;
 static void *canceller(void *a) {
 	canc_t *c = (canc_t *)a; round_t *r = c->r;
 	if (c->wait_fired) sem_wait_s(&r->fired_sem, 2);   // (events may legitimately never come: 2 s then cancel anyway)
+	if (r->scen == S_LATE) sem_wait_s(&r->late_go, 2);  // (the owner may never reach the latch: 2 s then cancel anyway)
 	if (c->delay_us) usleep((useconds_t)c->delay_us);
 	if (c->what == A_CAW) do_caw(r); else do_cancel(r, CX_THREAD);
 	return NULL;
@@ -182,7 +225,7 @@ static void run_round(round_t *r) {
 	char lbl[32]; snprintf(lbl, sizeof lbl, "c16.tq.%d", id);
 	r->tq = dispatch_queue_create(lbl, DISPATCH_QUEUE_SERIAL);
 	dispatch_queue_set_specific(r->tq, &qkey, r, NULL);
-	sem_init(&r->done, 0, 0); sem_init(&r->fired_sem, 0, 0); sem_init(&r->reuse_sem, 0, 0);
+	sem_init(&r->done, 0, 0); sem_init(&r->fired_sem, 0, 0); sem_init(&r->reuse_sem, 0, 0); sem_init(&r->late_go, 0, 0);
 	r->fd_r = r->fd_w = r->nfd_r = r->nfd_w = -1; r->ob_monitored = -2; r->reuse_ok = -1;
 	if (r->type == T_READ || r->type == T_WRITE) {
 		int p[2]; if (pipe(p) != 0) { perror("pipe"); exit(3); }
@@ -211,6 +254,7 @@ static void run_round(round_t *r) {
 	if (r->scen == S_REGH) dispatch_source_set_registration_handler_f(ds, reg_handler);
 
 	pthread_t th[2]; canc_t ca[2]; int nth = 0;
+	if (r->scen == S_LATE) g_late = r;
 	if (r->scen == S_PRE) { do_cancel(r, CX_THREAD); if (rr(r) & 1) do_cancel(r, CX_THREAD); }
 	if (r->scen == S_CAW_PRE) {
 		do_caw(r);   // cancel_and_wait on an inactive source activates it itself
@@ -236,6 +280,9 @@ static void run_round(round_t *r) {
 		}
 		ca[0] = (canc_t){ r, A_CANCEL, (int)(rr(r) % 600), r->scen == S_THREAD && (rr(r) & 1) };
 		pthread_create(&th[nth], NULL, canceller, &ca[nth]); nth++; break;
+	case S_LATE:
+		ca[0] = (canc_t){ r, A_CANCEL, 0, 0 };
+		pthread_create(&th[nth], NULL, canceller, &ca[nth]); nth++; break;
 	case S_TWICE:
 		ca[0] = (canc_t){ r, A_CANCEL, (int)(rr(r) % 300), (int)(rr(r) & 1) };
 		pthread_create(&th[nth], NULL, canceller, &ca[nth]); nth++;
@@ -260,8 +307,9 @@ static void run_round(round_t *r) {
 	default: break;
 	}
 	for (int k = 0; k < nth; k++) pthread_join(th[k], NULL);
+	g_late = NULL;
 	if (r->has_ch) {
-		if (sem_wait_s(&r->done, 20) != 0) r->timeouts |= 1;     // cancel handler never ran
+		if (sem_wait_progress(&r->done) != 0) r->timeouts |= 1;     // cancel handler never ran
 	} else {
 		// cancel_and_wait has returned in every thread that called it: the contract of the cancel handler holds here
 		observe(r);
@@ -272,14 +320,14 @@ static void run_round(round_t *r) {
 	r->stop = 1;
 	if (r->have_feeder) { pthread_join(r->feeder, NULL); if (r->type == T_DATA) dispatch_release(ds); }
 	if (r->ds2) {
-		if (sem_wait_s(&r->reuse_sem, 20) != 0) { r->reuse_ok = 0; } else r->reuse_ok = 1;
+		if (sem_wait_progress(&r->reuse_sem) != 0) { r->reuse_ok = 0; } else r->reuse_ok = 1;
 		dispatch_source_cancel(r->ds2);
-		if (sem_wait_s(&r->reuse_sem, 20) != 0) r->timeouts |= 4;
+		if (sem_wait_progress(&r->reuse_sem) != 0) r->timeouts |= 4;
 		dispatch_release(r->ds2);
 	}
 	// final state: wait (bounded) until the handler slots have been released, then read it
 	uint32_t ff = 0; uintptr_t h0 = 1, h1 = 1, h2 = 1, dus = 1; uint64_t pend = 1;
-	for (int i = 0; i < 20000; i++) {
+	for (long i = 0; i < 1000L * g_wait_s; i++) {   // every iteration is a round trip through the target queue, not a clock reading
 		dispatch_sync_f(r->tq, NULL, noop);
 		ff = *(volatile uint32_t *)&ds->dq_atomic_flags;
 		h0 = (uintptr_t)ds->ds_refs->ds_handler[0]; h1 = (uintptr_t)ds->ds_refs->ds_handler[1]; h2 = (uintptr_t)ds->ds_refs->ds_handler[2];
@@ -306,7 +354,8 @@ int main(int argc, char **argv) {
 	int first = argc > 4 ? atoi(argv[4]) : -1;    // type*100+scen of round 0 (replay of one configuration)
 	signal(SIGPIPE, SIG_IGN);
 	sigset_t ss; sigemptyset(&ss); sigaddset(&ss, SIGUSR2); pthread_sigmask(SIG_BLOCK, &ss, NULL);
-	dv_install(g_seed, g_permille);
+	if (getenv("C16_WAIT_S") && atoi(getenv("C16_WAIT_S")) > 0) g_wait_s = atoi(getenv("C16_WAIT_S"));
+	dv_install(g_seed, g_permille); _dispatch_verif_cb = c16_cb;
 	round_t *rounds = (round_t *)calloc((size_t)nrounds, sizeof(round_t));
 	uint64_t x = g_seed * 0x9E3779B97F4A7C15ull + 0xD1B54A32D192ED03ull;
 	for (int i = 0; i < nrounds; i++) {
@@ -326,5 +375,6 @@ int main(int argc, char **argv) {
 	dv_untrack_all();
 	printf("MGR %llu\n", (unsigned long long)(os_atomic_load2o(&_dispatch_mgr_q, dq_state, relaxed) & DLOCK_OWNER_MASK));
 	dv_dump(stdout);
+	printf("DONE %d\n", nrounds); fflush(stdout);
 	return 0;
 }
